@@ -354,8 +354,19 @@ class Base(object):
                                "a %s saw the frame written by %s with SENDER %s"
                                % (role, q.true_sender.decode("latin1"), claimed.decode("latin1")), {"frame": repr(rec)})
                 return
-        if claimed == NOT_ACTIVE and m.type == 1:
+        if claimed == NOT_ACTIVE and m.type == 1 and role == "monitor":
+            # a monitor is shown a frame before the driver handles it: a Hello (or anything written before Hello) still carries
+            # the bus's placeholder there
             self.part.count("prehello-frames-seen-by-" + role)
+            return
+        if claimed == NOT_ACTIVE:
+            # an eavesdropper gets its copy through the ordinary routing, after the driver has handled the call: by then the
+            # writer of a Hello has its unique name (and nothing else written before Hello is routed at all), so the
+            # placeholder is a SENDER that names no connection
+            self.violation("placeholder-sender-delivered:driver-%s:to-%s" % (TYPE_NAME.get(m.type, "other"), role),
+                           "a %s saw a frame (member %r, serial %d) whose SENDER is the bus's placeholder %s, which is neither the "
+                           "unique name of the connection that wrote it nor org.freedesktop.DBus (op %s)"
+                           % (role, m.known().get(3), m.serial, claimed.decode("latin1"), op), {"frame": repr(rec)})
             return
         self.violation("wrong-sender:driver-%s%s" % (TYPE_NAME.get(m.type, "other"), to),
                        "a %s saw a frame with SENDER %s serial %d that no connection of this history wrote (op %s)"
